@@ -24,6 +24,13 @@ const (
 )
 
 func init() {
+	mutant(&Mutant{Name: "c11-attribute-code-decoded-in-the-token-buffer", Property: "C11", File: "html/html.go",
+		Old: "m.MinifyMimetype(jsMimeBytes, attrMinifyBuffer, buffer.NewReader(decodeAttrVal(parse.Copy(val))), inlineParams)", New: "m.MinifyMimetype(jsMimeBytes, attrMinifyBuffer, buffer.NewReader(decodeAttrVal(val)), inlineParams)",
+		Rule: "R11.9", Construct: "decodes a copy of the attribute value"})
+	mutant(&Mutant{Name: "c11-escaper-stops-at-the-last-semicolon", Property: "C11", File: "html/html.go",
+		Old: "\tn := 0\n\tfor i := 0; i+1 < len(b); i++ {\n\t\tif b[i] == '&' && isRefStart(b[i+1]) {", New: "\tend := bytes.LastIndexByte(b, ';')\n\tn := 0\n\tfor i := 0; i < end; i++ {\n\t\tif b[i] == '&' && isRefStart(b[i+1]) {",
+		Old2: "if c == '&' && i+1 < len(b) && isRefStart(b[i+1]) {", New2: "if c == '&' && i < end && isRefStart(b[i+1]) {",
+		Rule: "R11.9", Construct: "escapes by looking at each byte and its successor only"})
 	register(&Property{
 		ID:    "C11",
 		Level: "other",
@@ -958,6 +965,59 @@ func (c *Ctx) r119() {
 			}
 			return true
 		})
+		// (c) a decoder that rewrites its argument in place gets a copy: the value itself is still needed when no
+		// minifier is registered (it is written as it is)
+		ast.Inspect(rd.Args[0], func(z ast.Node) bool {
+			ce, ok := z.(*ast.CallExpr)
+			if !ok || !bodyHas(ce, decodes) || len(ce.Args) != 1 {
+				return true
+			}
+			fo, _ := callee(info, ce).(*types.Func)
+			d := load.Func(pk, fo.Name())
+			inPlace := false
+			if d != nil && d.Type.Params != nil && len(d.Type.Params.List) > 0 && len(d.Type.Params.List[0].Names) > 0 {
+				pobj := info.Defs[d.Type.Params.List[0].Names[0]]
+				ast.Inspect(d.Body, func(w ast.Node) bool {
+					switch e := w.(type) {
+					case *ast.AssignStmt:
+						for _, l := range e.Lhs {
+							if ie, ok := l.(*ast.IndexExpr); ok {
+								if id, ok := ast.Unparen(ie.X).(*ast.Ident); ok && info.Uses[id] == pobj {
+									inPlace = true
+								}
+							}
+						}
+					case *ast.CallExpr:
+						if fid, ok := e.Fun.(*ast.Ident); ok && fid.Name == "copy" && len(e.Args) == 2 {
+							ast.Inspect(e.Args[0], func(v ast.Node) bool {
+								if id, ok := v.(*ast.Ident); ok && info.Uses[id] == pobj {
+									inPlace = true
+								}
+								return true
+							})
+						}
+					}
+					return true
+				})
+			}
+			if !inPlace {
+				return true
+			}
+			fresh := false
+			if ac, ok := ast.Unparen(ce.Args[0]).(*ast.CallExpr); ok {
+				switch cn := calleeName(info, ac); {
+				case cn == load.ParseMod+".Copy", cn == "bytes.Clone":
+					fresh = true
+				case cn == "append" || str(ac.Fun) == "append":
+					if len(ac.Args) >= 1 {
+						a0 := nospace(str(ac.Args[0]))
+						fresh = a0 == "[]byte(nil)" || a0 == "[]byte{}" || strings.HasPrefix(a0, "make(")
+					}
+				}
+			}
+			c.R.Check(fresh, rule, fmt.Sprintf("html.Minifier.Minify/embedded call#%d decodes a copy of the attribute value", n), c.pos(ce), "the in-place decoder is given parse.Copy(val)", "the decoder rewrites its argument in place and is handed the attribute value itself ("+str(ce.Args[0])+"): when no minifier is registered for the embedded type the value is written as it is — now half decoded, with the stale tail repeated (`onclick=\"go('a.php?x=1&amp;y=2')\"` → `go('a.php?x=1&y=2')=2')`)")
+			return true
+		})
 		c.R.Check(dec, rule, fmt.Sprintf("html.Minifier.Minify/embedded call#%d on an attribute value reads decoded text", n), c.pos(call), "through a function that calls html.UnescapeString", "the attribute value goes to the embedded minifier as parse.ReplaceEntities left it, with `&amp;` still in place in front of letters and digits: `onclick=\"a&amp;&amp;b()\"` is minified as the script `a&&amp;b()` and comes back as `a&&amp,b()`; `x=a&amp;b` is split into two statements")
 		// (b) the result taken from the buffer is escaped
 		esc, took := false, false
@@ -976,4 +1036,94 @@ func (c *Ctx) r119() {
 		return true
 	})
 	c.R.Floor(rule, "embedded calls on attribute values", n, 2)
+	// (d) the escaper decides byte by byte: its conditions mention only the data, the loop variables and its length
+	for _, efd := range load.FuncDecls(pk) {
+		if efd.Body == nil || efd.Recv != nil || efd.Type.Params == nil || len(efd.Type.Params.List) != 1 {
+			continue
+		}
+		isEsc := false
+		ast.Inspect(efd.Body, func(z ast.Node) bool {
+			if writesAmp(z) {
+				isEsc = true
+			}
+			return true
+		})
+		if !isEsc || len(efd.Type.Params.List[0].Names) != 1 {
+			continue
+		}
+		data := info.Defs[efd.Type.Params.List[0].Names[0]]
+		loopVars := map[types.Object]bool{}
+		ast.Inspect(efd.Body, func(z ast.Node) bool {
+			switch e := z.(type) {
+			case *ast.RangeStmt:
+				for _, kv := range []ast.Expr{e.Key, e.Value} {
+					if id, ok := kv.(*ast.Ident); ok {
+						loopVars[info.Defs[id]] = true
+					}
+				}
+			case *ast.ForStmt:
+				if as, ok := e.Init.(*ast.AssignStmt); ok {
+					for _, l := range as.Lhs {
+						if id, ok := l.(*ast.Ident); ok {
+							loopVars[info.Defs[id]] = true
+						}
+					}
+				}
+			}
+			return true
+		})
+		var foreign []string
+		checkCond := func(e ast.Expr) {
+			if e == nil {
+				return
+			}
+			ast.Inspect(e, func(z ast.Node) bool {
+				id, ok := z.(*ast.Ident)
+				if !ok {
+					return true
+				}
+				o := info.Uses[id]
+				v, isVar := o.(*types.Var)
+				if !isVar || v == data || loopVars[o] || v.Parent() == pk.Types.Scope() {
+					return true
+				}
+				// the counter of escapes needed (compared with 0 to skip the allocation) is fine
+				if bt, ok := v.Type().Underlying().(*types.Basic); ok && bt.Info()&types.IsInteger != 0 {
+					onlyCount := true
+					ast.Inspect(efd.Body, func(w ast.Node) bool {
+						if as, ok := w.(*ast.AssignStmt); ok {
+							for i, l := range as.Lhs {
+								if lid, ok := l.(*ast.Ident); ok && info.ObjectOf(lid) == o && i < len(as.Rhs) {
+									if k, isK := intConst(info, as.Rhs[i]); !isK || k != 0 {
+										onlyCount = false
+									}
+								}
+							}
+						}
+						return true
+					})
+					if onlyCount {
+						return true
+					}
+				}
+				foreign = append(foreign, id.Name)
+				return true
+			})
+		}
+		ast.Inspect(efd.Body, func(z ast.Node) bool {
+			switch e := z.(type) {
+			case *ast.IfStmt:
+				checkCond(e.Cond)
+			case *ast.ForStmt:
+				checkCond(e.Cond)
+			}
+			return true
+		})
+		construct := "html." + load.FuncName(efd) + "/escapes by looking at each byte and its successor only"
+		if len(foreign) == 0 {
+			c.R.OK(rule, construct, c.pos(efd), "conditions over the data, the loop variables and the length")
+		} else {
+			c.R.Unres(rule, construct, c.pos(efd), "the escaper's conditions depend on "+strings.Join(foreign, ", ")+", a value computed from the data as a whole (a position beyond which nothing is escaped, a flag): whether every `&` that can start a reference is still escaped cannot be judged — references without a semicolon (`&lt`, `&copy`) are decoded in attribute values too, so `f(a&amp;lt)` must not become `f(a&lt)`")
+		}
+	}
 }
